@@ -89,25 +89,26 @@ def run(ctx, obs):
 
 
 def dispatch(ctx, obs, rule='EXH'):
+    from ..rules.common import string_dispatch
     prog = ctx.prog
     q = M + 'compare'
     f = prog.func(q)
     r = ctx.dep.result(q)
-    arms = {}
-    last = None
-    for s in ast.walk(f.node):
-        if not isinstance(s, ast.If):
-            continue
-        keys = _keys(s.test, 'method')
-        for k in keys:
-            arms.setdefault(k, s)
-        if keys:
-            last = s if last is None or s.lineno > last.lineno else last
+    form, arms = string_dispatch(f, 'method')
+    if form is None:
+        obs.unk(rule, q, 'every method string dispatches to its comparison function', 'dispatch on `method` not recognised (neither an '
+                'if/elif chain nor a consulted table)', where(prog, f, f.node))
+        return
     for key, fn in DISPATCH.items():
         if key not in arms:
             obs.bad(rule, q, f'method {key!r} has an arm', f'compare() has no arm for method {key!r}', where(prog, f, f.node))
             continue
-        s = arms[key]
+        node, names = arms[key]
+        if form == 'table':
+            obs.check(fn in names, rule, q, f'method {key!r} dispatches to {fn}',
+                      f'the table row for {key!r} names {sorted(names)}', '', where(prog, f, node))
+            continue
+        s = node
         inside = {id(n) for st in s.body for n in ast.walk(st)}
         cs = [c for c in r.calls if id(c.node) in inside and c.callees]
         callees = {x for c in cs for x in c.callees}
@@ -121,15 +122,27 @@ def dispatch(ctx, obs, rule='EXH'):
                 obs.check(ok, rule, q, f'method {key!r}: rdm1, rdm2 are passed in order',
                           f'`{norm(c.node)}` does not pass (rdm1, rdm2) in this order: rows/columns of the result swap',
                           '', where(prog, f, c.node))
-    if last is not None:
-        ok = bool(last.orelse) and isinstance(last.orelse[-1], ast.Raise)
-        obs.check(ok, rule, q, 'unknown method is rejected (chain ends in raise)',
-                  'no final else-arm raising for unknown method strings', '', where(prog, f, last))
+    if form == 'table':
+        # calls through the selected function value: (rdm1, rdm2) in order
+        for c in r.calls:
+            if not c.callees and isinstance(c.node.func, ast.Name) and len(c.node.args) >= 2:
+                a0, a1 = c.node.args[:2]
+                if isinstance(a0, ast.Name) and isinstance(a1, ast.Name) and {a0.id, a1.id} == {'rdm1', 'rdm2'}:
+                    obs.check(a0.id == 'rdm1', rule, q, 'the selected function receives (rdm1, rdm2) in order',
+                              f'`{norm(c.node)}` swaps the two stacks', '', where(prog, f, c.node))
+        raises = any(isinstance(n, ast.Raise) for n in ast.walk(f.node))
+        obs.soft(raises, rule, q, 'unknown method is rejected', 'no raise found', '', where(prog, f, f.node))
+        return
+    chain = [n for n, _ in arms.values()]
+    last = max(chain, key=lambda n: n.lineno)
+    ok = bool(last.orelse) and isinstance(last.orelse[-1], ast.Raise)
+    obs.check(ok, rule, q, 'unknown method is rejected (chain ends in raise)',
+              'no final else-arm raising for unknown method strings', '', where(prog, f, last))
     # the result of the selected arm is what is returned
     rets = [n for n, _, _ in r.returns if n is not None and n.value is not None]
     for n in rets:
         obs.check(isinstance(n.value, ast.Name) and all(
-            any(isinstance(t, ast.Name) and t.id == n.value.id for st in arms[k].body if isinstance(st, ast.Assign)
+            any(isinstance(t, ast.Name) and t.id == n.value.id for st in arms[k][0].body if isinstance(st, ast.Assign)
                 for t in st.targets) for k in DISPATCH if k in arms) or isinstance(n.value, ast.Call),
                   rule, q, 'the value computed by the selected arm is returned', 'return value is not the arm result',
                   '', where(prog, f, n))
